@@ -203,6 +203,23 @@ def cases(ctx):
         t = gen_text(rng)
         ops = [rng.choice([0, 0, 1, 2, 3, 4, 5, 6, 7, 8, 8, 9, 10, 11, 12, 13, 14, 16, 17, 18, 19, 20, 21, 21, 22]) for _ in range(rng.randint(1, 6))]
         yield "script", [5, enc(t), ops]
+    # character-strings at the length boundary whose escaped text is longer than 255 characters: the limit of
+    # get_string_as_bytes(max_length) / the constructors counts octets, not characters of the text
+    for b in c05lib.boundary_strings(rng, full=not ctx.quick):
+        q = '"' + c05lib.independent_escape(b) + '"'
+        yield "script", [5, enc(q), [22]]
+        yield "script", [5, enc(q + " " + q), [21, 22]]
+        yield "script", [5, enc(c05lib.independent_escape(b).replace(" ", "\\032")), [22]]
+        yield "escapify", [1, b]
+        yield "unescape-bytes", [4, enc(c05lib.independent_escape(b))]
+        yield "txt-to-text", [6, [b, b[:1]]]
+        yield "txt-from-text", [7, enc(q)]
+        for rdtype, text in ((13, q + ' "x"'), (13, '"" ' + q), (19, q), (35, "1 2 " + q + ' "" "" .'), (35, '1 2 "" "" ' + q + " x."),
+                             (257, "0 issue " + q), (256, "1 2 " + q)):
+            yield "rd-from-text", [41, rdtype, enc(text), [None, 1, None]]
+            if len(b) == 255:
+                # one octet too many: rejected by the limit, not by the length of the text
+                yield "rd-from-text", [41, rdtype, enc(text.replace(q, q[:-1] + 'a"')), [None, 1, None]]
     for _ in range(ctx.n(80, 2000)):
         ss = [gen_bytes(rng, 300 if rng.random() < 0.1 else 30) for _ in range(rng.randint(1, 4))]
         ss = [s[:255] for s in ss]
@@ -327,6 +344,8 @@ def gen_field(rng, kind):
         m = MAXV[kind]
         return rng.choice([0, 1, 9, 10, 255, 256, m - 1, m, rng.randrange(m + 1), rng.randrange(m + 1)]) % (m + 1)
     if kind in ("q", "q1"):
+        if rng.random() < 0.12:
+            return rng.choice(c05lib.boundary_strings(rng))
         b = gen_bytes(rng, 300 if rng.random() < 0.05 else 20)[:255]
         return b if (b or kind == "q") else b"x"
     if kind == "n":
